@@ -89,6 +89,10 @@ func (c *Config) Merge(from interface{}, options ...Option) error {
 }
 
 func mergeConfig(opts *options, to, from *Config) Error {
+	if to.fields == nil {
+		// zero value Config (not made by New), e.g. a Config embedded by value
+		to.fields = &fields{}
+	}
 	if err := mergeConfigDict(opts, to, from); err != nil {
 		return err
 	}
